@@ -87,6 +87,15 @@ CHECKS = {
     "C35": ("exploration", "proptest save/load round trips of C34-built columns + random bytes, hostile run streams and structure-aware mutations offered to 31 load entry points",
             "load(save(col)) equal; load of arbitrary bytes returns Ok/Err without panic; whatever loads is internally consistent, valid UTF-8 and re-saves to loadable bytes.",
             "Verdict profile has overflow checks on. One known finding (slab-budget-dependent delta load).", "3/C35, 2.7"),
+    "C03": ("exploration", "proptest call sequences with ~22% invalid calls on a conflicted prior state; metamorphic per-call sequential model (documented effect applied to the observation before == observation after, everything else unchanged)",
+            "Automerge::transaction() and AutoCommit, all four encodings; Err => no change to state or pending_ops; commit shows what the transaction showed.",
+            "Mid-character text indexes, marks of freshly inserted text and GraphemeCluster lengths are not asserted here.", "3/C03, 2.5, B.3"),
+    "C29": ("exploration", "proptest histories + generated edits under isolate()/transaction_at() vs the same edits on a plain document built from ancestors(heads); deps and integrate oracles",
+            "Id-free observation equality after every edit, deps of every isolated commit, and equality with twin+isolated changes after integrate.",
+            "One known finding (text inserted next to ops hidden by the scope lands differently relative to mark boundaries) excluded by signature.", "3/C29"),
+    "C30": ("exploration", "proptest histories with shifting actor tables; remembered-id vs natively-discovered-id differential in every replica, merged and reloaded document",
+            "Reads and edits through old ids equal those through fresh ids; absent objects give errors/empties.",
+            "Absence is decided by the harness from the decoded make ops.", "3/C30"),
 }
 
 PENDING = {}
